@@ -1,6 +1,7 @@
 package main
 
 import (
+	"sync/atomic"
 	"context"
 	"errors"
 	"fmt"
@@ -65,6 +66,7 @@ func (n *recNode) Peers(ctx context.Context) ([]ethnode.PeerInfo, error) {
 func (n *recNode) BlockNumber(ctx context.Context) (uint64, error) { return 7, nil }
 
 type scriptPool struct {
+	latencyNs int64 // every keep-alive takes this long to be answered
 	mu          sync.Mutex
 	connectErr  error
 	connectWait time.Duration
@@ -102,6 +104,9 @@ func (p *scriptPool) Update(ctx context.Context, req pool.UpdateRequest) (*pool.
 	if hold != nil {
 		close(held)
 		<-hold
+	}
+	if d := time.Duration(atomic.LoadInt64(&p.latencyNs)); d > 0 {
+		time.Sleep(d) // a pool that takes its time to answer
 	}
 	p.mu.Lock()
 	defer p.mu.Unlock()
@@ -530,6 +535,30 @@ func (c *agentLifeComp) Exec(t []string) (extra []string, out string, eff bool) 
 			return "returned clean"
 		}, 400*time.Millisecond), false
 	case "run":
+		if t[1] == "slow" {
+			// the pool answers each keep-alive after half an interval: keep-alives still go out every interval (the
+			// cadence is what keeps the node inside the pool's expiry window), they do not drift apart
+			atomic.StoreInt64(&c.pool.latencyNs, int64(lifeInterval/2))
+			c.pool.mu.Lock()
+			before := c.pool.updates
+			c.pool.mu.Unlock()
+			const n = 20
+			time.Sleep(n * lifeInterval)
+			c.pool.mu.Lock()
+			cnt := c.pool.updates - before
+			c.pool.mu.Unlock()
+			atomic.StoreInt64(&c.pool.latencyNs, 0)
+			time.Sleep(lifeInterval)
+			switch {
+			case cnt == 0:
+				return nil, "loops=0", false
+			case cnt >= n-3 && cnt <= n+2:
+				return []string{fmt.Sprintf("#count=%d", cnt)}, "loops=1 cadence=ok", false
+			case cnt < n-3:
+				return nil, fmt.Sprintf("loops=1 cadence=drift(%d-of-%d)", cnt, n), false
+			}
+			return nil, fmt.Sprintf("loops=2(%d)", cnt), false
+		}
 		// let some intervals elapse and count the keep-alives sent in that window
 		c.pool.mu.Lock()
 		if t[1] == "fail" {
@@ -612,7 +641,7 @@ func (c *agentLifeComp) Gen(r *rand.Rand, idx int, emit func(string)) {
 		default:
 			if runs < 2 {
 				runs++
-				o := pick(r, []string{"ok", "ok", "fail"})
+				o := pick(r, []string{"ok", "ok", "fail", "slow"})
 				emit("run " + o)
 				if o == "fail" && loops == 1 {
 					loops = 0
